@@ -73,6 +73,81 @@ fn run_case(i: usize, mut rng: jjv::Rng) -> CaseOut {
     let states1 = ws.file_states();
     let outside_ok = ws.outside_listing() == outside0;
 
+    // micro-correspondence of the primitives: a few real std::fs calls on safe paths
+    let mut prims: Vec<String> = vec![];
+    {
+        use std::io::ErrorKind;
+        let mut cands: Vec<P> = disk1.keys().filter(|p| p[0] != ".jj").cloned().collect();
+        for p in t1.keys().chain(t2.keys()) {
+            for k in 1..=p.len() {
+                cands.push(p[..k].to_vec());
+            }
+        }
+        for n in NAMES {
+            cands.push(vec![n.to_string()]);
+        }
+        cands.sort();
+        cands.dedup();
+        let k = rng.below(6);
+        for _ in 0..k {
+            let mut p = rng.pick(&cands).clone();
+            if rng.chance(1, 3) {
+                p.push(rng.pick(NAMES).to_string());
+            }
+            if p.iter().any(|c| c == "." || c == ".." || c.is_empty() || c == ".jj" || c == ".git") {
+                continue;
+            }
+            // only where the model defines the call: every proper prefix is a real directory
+            let mut cur = ws.root.clone();
+            let mut safe = true;
+            for c in &p[..p.len() - 1] {
+                cur.push(c);
+                safe &= cur.symlink_metadata().map(|m| m.file_type().is_dir()).unwrap_or(false);
+            }
+            if !safe {
+                continue;
+            }
+            let full = disk_path(&ws.root, &p);
+            let code_of = |r: std::io::Result<()>| -> u64 {
+                match r {
+                    Ok(()) => 0,
+                    Err(e) => match (e.kind(), e.raw_os_error()) {
+                        (ErrorKind::AlreadyExists, _) => 1,
+                        (ErrorKind::NotFound, _) => 2,
+                        (_, Some(21)) => 3,  // EISDIR
+                        (_, Some(20)) => 4,  // ENOTDIR
+                        (_, Some(39)) => 5,  // ENOTEMPTY
+                        _ => 98,
+                    },
+                }
+            };
+            let (call, code) = match rng.below(6) {
+                0 => (format!("(PcCreateDir {})", coq_path(&p)), code_of(std::fs::create_dir(&full))),
+                1 => (
+                    format!("(PcCreateNew {})", coq_path(&p)),
+                    code_of(std::fs::OpenOptions::new().write(true).create_new(true).open(&full).map(|_| ())),
+                ),
+                2 => (format!("(PcRemoveFile {})", coq_path(&p)), code_of(std::fs::remove_file(&full))),
+                3 => (format!("(PcRemoveDir {})", coq_path(&p)), code_of(std::fs::remove_dir(&full))),
+                4 => (
+                    format!("(PcSymlink {} {})", coq_path(&p), coq_content(b"t")),
+                    code_of(std::os::unix::fs::symlink("t", &full)),
+                ),
+                _ => (
+                    format!("(PcLstat {})", coq_path(&p)),
+                    match full.symlink_metadata() {
+                        Err(_) => 10,
+                        Ok(m) if m.file_type().is_symlink() => 12,
+                        Ok(m) if m.file_type().is_dir() => 13,
+                        Ok(_) => 11,
+                    },
+                ),
+            };
+            prims.push(format!("({call}, {code})"));
+        }
+    }
+    let disk2 = list_disk(&ws.root);
+
     let term = coq::app(
         "mk_case",
         &[
@@ -86,6 +161,8 @@ fn run_case(i: usize, mut rng: jjv::Rng) -> CaseOut {
             coq_disk(&disk1),
             coq_states(&states1),
             coq::b(outside_ok),
+            coq::list(prims.iter(), |s| s.clone()),
+            coq_disk(&disk2),
         ],
     );
     let skipped = matches!(&res, Outcome::Ok(s) if s.skipped_files > 0);
